@@ -183,7 +183,18 @@ def r2_r3(ctx):
     r3.analysed(b)
     p = Prov(b, facts)
     g = Guards(b, p, facts)
-    tsn = local_named(b, "to_send_nodes")
+    try:
+        tsn = local_named(b, "to_send_nodes")
+    except AnchorError:
+        # renamed: the list of packets is the (most written) local of type Vec<Vec<Enr>>
+        cands = [i for i in range(len(b.locals)) if re.match(r"^std::vec::Vec<std::vec::Vec<enr::Enr<.*>>>$", b.local_ty(i) or "") and b.local_name(i)]
+        if not cands:
+            raise
+
+        def weight(i):
+            return sum(1 for blk in b.blocks if not blk.cleanup for s_ in blk.stmts
+                       if s_.k == "a" and ((s_.lhs.local == i) or (s_.rv.k == "ref" and s_.rv.j.get("bk") == "mut" and s_.rv.place is not None and s_.rv.place.local == i)))
+        tsn = max(cands, key=weight)
     try:
         idx = local_named(b, "rpc_index")
     except AnchorError:
